@@ -5,6 +5,7 @@ Base artefacts are valid signatures (made by PGPy, and by the reference signer i
 alphabet -- subject, signature packet, key -- is applied and verification must be falsy or raise.
 Mutations that provably leave hash input, signature integers and key unchanged are classified
 'equivalent' (must stay truthy) or 'free' (unhashed data: either verdict is acceptable)."""
+import itertools
 import copy
 
 from mc.core import Res
@@ -152,7 +153,7 @@ class Prop(object):
     RULE = ('bases: (B1) signer (10) x hash (6) binary signatures, (B2) 21 signature kinds x 4 signers, carried forms (message, key), (B3, thorough) '
             'reference-signed; per base every single mutation of the alphabet: subject bit flips / edits / type-confusion twins, every other type / '
             'algorithm / hash id, every bit of the hashed area and its length, hashed subpacket add/remove/duplicate/reorder/demote, signature integer '
-            'bits, other keys with rewritten issuer, primary<->subkey relabelling. Distinct = distinct (base, mutation); non-trivial = mutation '
+            'bits, other keys with rewritten issuer, primary<->subkey relabelling; text-mode signatures x every line break of the text replaced by each of LF, CR LF, bare CR, LF CR, CR CR LF, LF LF, nothing, blank (detached str / bytes, cleartext message). Distinct = distinct (base, mutation); non-trivial = mutation '
             'classified different (must be rejected) or equivalent (must be accepted).')
     ASSUMPTIONS = ['a mutation inside the hashed region, header octets, signature integers, subject octets or key material makes the signature a different '
                    'one (RFC 4880 5.2.4); mutations of unhashed data are free',
@@ -663,6 +664,32 @@ class Prop(object):
                 except Exception as e:
                     verdict = 'verify-error:' + type(e).__name__
                 self._judge(r, 'free' if free else 'different', verdict, dict(tags, grp='cleartext-line-end'), dict(case), 'cleartext message with %s' % mname)
+        # --- text-mode signatures (type 0x01): RFC 4880 5.2.4 turns line endings into CR LF before hashing - LF and CR LF are the same text, a bare CR
+        # is an ordinary character of the line, a doubled or dropped line end is another text; every break of the base x every replacement, offered as
+        # a detached subject (str and bytes) and as a cleartext message carrying the signature
+        base_text = 'first line\nsecond line\nlast line'
+        cm = pgpy.PGPMessage.new(base_text, cleartext=True)
+        cm |= key.sign(cm, hash=HashAlgorithm.SHA256, created=K.dt(S.SIG_T))
+        tsig = pgpy.PGPMessage.from_blob(str(cm)).signatures[0]
+        parts = base_text.split('\n')
+        for combo in itertools.product(('\n', '\r\n', '\r', '\n\r', '\r\r\n', '\n\n', '', ' '), repeat=len(parts) - 1):
+            variant = parts[0] + ''.join(b + p_ for b, p_ in zip(combo, parts[1:]))
+            free = all(b in ('\n', '\r\n') for b in combo)
+            name = '+'.join(repr(b) for b in combo)
+            for how in ('detached-str', 'detached-bytes', 'cleartext-message'):
+                try:
+                    if how == 'detached-str':
+                        verdict = 'truthy' if pub.verify(variant, tsig) else 'falsy'
+                    elif how == 'detached-bytes':
+                        verdict = 'truthy' if pub.verify(variant.encode('ascii'), tsig) else 'falsy'
+                    else:
+                        mm = pgpy.PGPMessage.new(variant, cleartext=True)
+                        mm |= tsig
+                        verdict = 'truthy' if pub.verify(mm) else 'falsy'
+                except Exception as e:
+                    verdict = 'verify-error:' + type(e).__name__
+                self._judge(r, 'free' if free else 'different', verdict, dict(tags, grp='text-mode-line-break', how=how), dict(case),
+                            'text-mode signature offered (%s) the text with line breaks %s' % (how, name))
         # --- inside a key: a certification made over one spelling of a name does not cover another spelling with other octets (Unicode normalisation
         # forms, compatibility characters): the signed subject is the octets of the user id packet
         import unicodedata
